@@ -32,6 +32,7 @@ struct Tape {
     size_t n = 0;
     size_t pos = 0;
     size_t back = 0;  // elements consumed from the end (fuzz-style control words)
+    bool odd_bytes = false;  // the byte input had odd length: the last element's high byte is padding
 
     uint32_t raw() {
         uint32_t v = (pos + back < n) ? d[pos] : 0;
@@ -91,6 +92,7 @@ struct Tape {
         size_t r = remaining();
         v.resize(r * 2);
         if (r) memcpy(v.data(), d + pos, r * 2);
+        if (r && odd_bytes && back == 0) v.pop_back();   // drop the padding byte of an odd-length input
         pos += r;
         (void)nbytes_total_hint;
         return v;
@@ -150,7 +152,7 @@ inline uint64_t fnv64(const void* p, size_t n, uint64_t h = 0xcbf29ce484222325ul
 
 // run one case through the harness' property; returns 0 pass, 1 fail, 2 discard.
 // msg receives the failure message.
-int run_case(const uint16_t* d, size_t n, std::string* msg, bool fuzz_entry);
+int run_case(const uint16_t* d, size_t n, std::string* msg, bool fuzz_entry, bool odd_bytes = false);
 
 }  // namespace vf
 
